@@ -25,7 +25,12 @@ func init() {
 	subcommands["c05worker"] = c05Worker
 }
 
-const mimeVnd = "application/jsonL" // a custom registration whose name contains a built-in one and has an upper-case letter
+// mimeVnd: the custom registration. Default: a name that contains a built-in one and has an
+// upper-case letter; workers in "alt" mode use mimeAlt, a name unrelated to every built-in one
+// (before its late registration no lookup of any kind finds a writer for it).
+var mimeVnd = "application/jsonL"
+
+const mimeAlt = "text/x.Custom"
 
 // absRange is one abstract media range of an Accept header.
 type absRange struct {
@@ -122,6 +127,7 @@ type c05Case struct {
 	Accept   string   `json:"accept"`
 	Default  string   `json:"default_response_mime_type"`
 	Vnd      bool     `json:"vnd_registered"`
+	Custom   string   `json:"custom_type,omitempty"`
 	Order    []string `json:"map_order,omitempty"`
 }
 
@@ -401,7 +407,10 @@ var c05Styles = func() []wsStyle {
 
 func c05Worker(args []string) {
 	e3Quiet()
-	tier, def, vnd := args[0], args[1], args[2] == "true"
+	tier, def, vnd := args[0], args[1], args[2] != "false"
+	if args[2] == "alt" {
+		mimeVnd = mimeAlt
+	}
 	restful.DefaultResponseContentType(def)
 	registered := map[string]bool{restful.MIME_JSON: true, restful.MIME_XML: true}
 	keys := []string{restful.MIME_JSON, restful.MIME_XML}
@@ -445,7 +454,7 @@ func c05Worker(args []string) {
 				if c05HookCalled {
 					res.MapRuns++
 				}
-				cs := c05Case{produces, accept, def, vnd, nil}
+				cs := c05Case{produces, accept, def, vnd, mimeVnd, nil}
 				if why != "" && len(res.Issues) < 60 {
 					fnd := ""
 					if f14(accept, def, key) {
@@ -499,7 +508,7 @@ func c05Worker(args []string) {
 			res.Cases++
 			res.Abstract++
 			if why != "" && len(res.Issues) < 60 {
-				res.Issues = append(res.Issues, c05Issue{"negotiation", "", fmt.Sprintf("Produces %v Accept %q default=%q vnd=%v : %s (%s)", produces, accept, def, vnd, why, key), c05Case{produces, accept, def, vnd, nil}})
+				res.Issues = append(res.Issues, c05Issue{"negotiation", "", fmt.Sprintf("Produces %v Accept %q default=%q vnd=%v : %s (%s)", produces, accept, def, vnd, why, key), c05Case{produces, accept, def, vnd, mimeVnd, nil}})
 			}
 		}
 	}
@@ -516,7 +525,7 @@ func c05Worker(args []string) {
 				res.Abstract++
 				res.Dispatches++
 				if why := judgeMultiLine(produces, accept, registered); why != "" && len(res.Issues) < 60 {
-					res.Issues = append(res.Issues, c05Issue{"accept-lines", "", fmt.Sprintf("Produces %v Accept lines %q default=%q vnd=%v : %s", produces, strings.Split(accept, "\n"), def, vnd, why), c05Case{produces, accept, def, vnd, nil}})
+					res.Issues = append(res.Issues, c05Issue{"accept-lines", "", fmt.Sprintf("Produces %v Accept lines %q default=%q vnd=%v : %s", produces, strings.Split(accept, "\n"), def, vnd, why), c05Case{produces, accept, def, vnd, mimeVnd, nil}})
 				}
 			}
 		}
@@ -534,6 +543,9 @@ func replayC05(detail json.RawMessage) error {
 	restful.DefaultResponseContentType(cs.Default)
 	registered := map[string]bool{restful.MIME_JSON: true, restful.MIME_XML: true}
 	keys := []string{restful.MIME_JSON, restful.MIME_XML}
+	if cs.Custom != "" {
+		mimeVnd = cs.Custom
+	}
 	if cs.Vnd {
 		restful.RegisterEntityAccessor(mimeVnd, restful.NewEntityAccessorJSON(mimeVnd))
 		registered[mimeVnd] = true
@@ -584,11 +596,11 @@ func checkC05(run *h.Run) {
 	self, _ := os.Executable()
 	type job struct {
 		def string
-		vnd bool
+		vnd string
 	}
 	var jobs []job
 	for _, d := range []string{"", restful.MIME_JSON, restful.MIME_XML} {
-		for _, v := range []bool{false, true} {
+		for _, v := range []string{"false", "true", "alt"} {
 			jobs = append(jobs, job{d, v})
 		}
 	}
@@ -598,7 +610,7 @@ func checkC05(run *h.Run) {
 		wg.Add(1)
 		go func(i int, j job) {
 			defer wg.Done()
-			cmd := exec.Command(self, "c05worker", run.Tier, j.def, fmt.Sprint(j.vnd))
+			cmd := exec.Command(self, "c05worker", run.Tier, j.def, j.vnd)
 			var ob, eb bytes.Buffer
 			cmd.Stdout, cmd.Stderr = &ob, &eb
 			if err := cmd.Run(); err != nil {
@@ -638,6 +650,6 @@ func checkC05(run *h.Run) {
 			run.Cov["unowned_map_ranges"] = rep["unowned_map_ranges"]
 		}
 	}
-	run.Cov["rule"] = "E1 on the instrumented build (map iteration order owned): Produces = every non-empty duplicate-free sequence over {json, xml, vnd (custom registration)} x Accept = every header of 0-2 abstract media ranges over {*/*, json, xml, vnd, text/plain} x q {absent, 0.5, 0.8; thorough also 0.1, 1} x extra parameter {none, before q, after q}, 3 ranges over a reduced alphabet, and long headers of 13-20 ranges with two tied candidates at varying positions; each abstract header is rendered in all 64 optional-whitespace styles around ',' ';' '='; x DefaultResponseMimeType {unset, json, xml} x registered-writer set (separate worker processes; the custom writer - its name has an upper-case letter - is registered after every route has already served five entity requests). Oracles: Content-Type = reference choice and the body decodes with it; all renderings of one abstract header agree; never 406 when the router admitted; whenever the accessor lookup reaches its map range every iteration order is enumerated and must agree. Distinct non-trivial = abstract (Produces, header) pairs."
+	run.Cov["rule"] = "E1 on the instrumented build (map iteration order owned): Produces = every non-empty duplicate-free sequence over {json, xml, vnd (custom registration)} x Accept = every header of 0-2 abstract media ranges over {*/*, json, xml, vnd, text/plain} x q {absent, 0.5, 0.8; thorough also 0.1, 1} x extra parameter {none, before q, after q}, 3 ranges over a reduced alphabet, and long headers of 13-20 ranges with two tied candidates at varying positions; each abstract header is rendered in all 64 optional-whitespace styles around ',' ';' '='; x DefaultResponseMimeType {unset, json, xml} x registered-writer set (separate worker processes; the custom writer - in one set a name with an upper-case letter that contains a built-in name, in another a name unrelated to the built-in ones - is registered after every route has already served five entity requests). Oracles: Content-Type = reference choice and the body decodes with it; all renderings of one abstract header agree; never 406 when the router admitted; whenever the accessor lookup reaches its map range every iteration order is enumerated and must agree. Distinct non-trivial = abstract (Produces, header) pairs."
 	run.Assume = []string{"reference: q default 1, stable order by q, */* = first Produces entry with a writer", "media-range wildcards type/*, q=0 and HTAB are outside the alphabet"}
 }
